@@ -121,3 +121,6 @@ def run(ctx):
                % (tot["runs"], tot["dispatches"]), not divs,
                json.dumps({"cfg": divs[0]["cfg"], "div": divs[0]["div"]}) if divs else "")
     ctx.coverage["serial_runs"] = tot
+    # uninitialised reads (clang MemorySanitizer build of the whole core): e.g. message fields the allocator leaves as they were
+    from props import runlib as _rl
+    _rl.msan_matrix(ctx, 12, 200, salt=10)
